@@ -97,14 +97,22 @@ GEN_METHODS = [n for n in dir(np.random.Generator)
 
 
 def _batchie_frames(skip=2):
+    """call sites under /repo/src/batchie on the stack, innermost first; if there is none, the immediate caller marked <outside>"""
     f = sys._getframe(skip)
+    first = f
     out = []
     while f is not None:
         fn = f.f_code.co_filename
         if fn.startswith(SRC):
             out.append("%s:%s:%d" % (fn[len(SRC):], f.f_code.co_name, f.f_lineno))
         f = f.f_back
+    if not out:
+        out = ["<outside>%s:%s:%d" % (os.path.basename(first.f_code.co_filename), first.f_code.co_name, first.f_lineno)]
     return out
+
+
+def _outside(frames):
+    return frames[0].startswith("<outside>")
 
 
 def site_ff(site):
@@ -176,7 +184,7 @@ def recording(gen, label):
 
 class Session:
     def __init__(self):
-        self.log = []   # trapped calls: dict(fn, frames)
+        self.log = []   # trapped calls: dict(fn, frames) — frames: batchie call sites innermost first, or one '<outside>' caller
         self.gens = []  # recording generators, in creation order
 
     def rng(self, seed):
@@ -203,7 +211,7 @@ def _traps(sess):
         if seedless:
             sess.log.append(dict(fn="default_rng()", frames=frames))
             return g
-        if frames:  # a seeded generator the operation creates itself (--seed, sampling.sample): record its requests too
+        if not _outside(frames):  # a seeded generator the operation creates itself (--seed, sampling.sample): record its requests too
             r = recording(g, "created@" + site_ff(frames[0]))
             sess.gens.append(r)
             return r
@@ -236,7 +244,7 @@ def observe(thunk, gseed):
     return dict(out=out, gens=sess.gens,
                 reqs=[[g.label, g.requests] for g in sess.gens], answers=[g.answers for g in sess.gens],
                 np_changed=not _state_eq(st0, st1), py_changed=(py0 != py1),
-                trapped=[e for e in sess.log if e["frames"]], trapped_outside=len([e for e in sess.log if not e["frames"]]))
+                trapped=list(sess.log), trapped_outside=len([e for e in sess.log if _outside(e["frames"])]))
 
 
 # ------------------------------------------------------------------------------------------------ inputs
@@ -705,12 +713,14 @@ def _req_wire(name, a, k):
         if isinstance(pool, (int, np.integer)):
             return [2, int(pool), int(size), bool(rep)]
         return [1, [int(x) for x in np.asarray(pool).tolist()], int(size), bool(rep)]
-    raise ValueError("unmodelled request %s" % name)
+    return [9, [ord(c) for c in name]]   # a request the model never makes: shows up as a trace difference
 
 
 def _ans_wire(name, r):
     if name == "random":
         return [float_key(r)]
+    if name != "choice":
+        return []
     return [int(x) for x in np.asarray(r).ravel().tolist()]
 
 
@@ -736,7 +746,10 @@ def conformance(d, r1):
     if k in ("random_holdout", "balanced_holdout"):
         # rows are re-identified by their distinct observation values
         arr = mk_arrays(d["screen"])["observations"]
-        held = sorted(int(np.flatnonzero(arr == o)[0]) for o in _held_obs(d, r1))
+        ho = _held_obs(d, r1)
+        if ho is None:
+            return None, None
+        held = sorted(int(np.flatnonzero(arr == o)[0]) for o in ho)
         fr = common.frac(d["fraction"])
         if k == "random_holdout":
             return [1, n, fr, answers], [held, reqs]
@@ -750,11 +763,10 @@ def conformance(d, r1):
 
 
 def _held_obs(d, r1):
-    """observation values of the held-out screen of run 1 (re-executed purely, no traps: same seed => same result is aspect 'repeatable')"""
-    from batchie import retrospective as R
-    f = R.create_random_holdout if d["kind"] == "random_holdout" else R.create_plate_balanced_holdout_set_among_masked_plates
-    _, held = f(mk_screen(d["screen"]), d["fraction"], ORIG_DEFAULT_RNG(d["seed"]))
-    return held.observations.tolist()
+    """observation values of the held-out screen of run 1 (second component of the output; float arrays of <= 64 rows
+    are kept verbatim by cv)"""
+    o = r1["out"][1][2]
+    return [float.fromhex(h) for h in o[4]] if len(o) > 4 else None
 
 
 def _cmp_conf(m, i):
@@ -827,7 +839,7 @@ def extra(tier):
         pyrandom.random()
         return 0
     r = observe(probe, 4242)
-    ok = r["trapped_outside"] == 2 and r["np_changed"] and r["py_changed"] and not r["trapped"]
+    ok = r["trapped_outside"] == 2 and len(r["trapped"]) == 2 and r["np_changed"] and r["py_changed"]
     out.append(("trap-selftest", ok, "outside=%d np_changed=%s py_changed=%s" % (r["trapped_outside"], r["np_changed"], r["py_changed"])))
     r = observe(lambda S: 0, 4243)
     out.append(("trap-selftest-quiet", (not r["np_changed"]) and (not r["py_changed"]) and r["trapped_outside"] == 0, "idle operation leaves the states alone"))
